@@ -198,3 +198,24 @@ package domain
 //@ guarded_by fileController.readers.files readers
 //@ guarded_by fileReaders.open .
 //@ unshared openFileController the controller is built before it is reachable from any other goroutine
+
+//@ # ---------------------------------------------------------------- index file codec (C01/C02): 26 bytes per pointer, little endian
+//@ spec func encodedAt(b []byte, off int, p pointer) bool =
+//@   byteOrder.Uint64(b[off:off+8]) == uint64(p.Start) && byteOrder.Uint64(b[off+8:off+16]) == uint64(p.End) &&
+//@   byteOrder.Uint16(b[off+16:off+18]) == p.fileKey && byteOrder.Uint32(b[off+18:off+22]) == p.offset && byteOrder.Uint32(b[off+22:off+26]) == p.size
+//@ spec func nonnegPtrs(ptrs []pointer) bool = forall i int :: 0 <= i && i < len(ptrs) ==> ptrs[i].Start >= 0 && ptrs[i].End >= 0
+
+//@ func (f *pointerCodec) encode(start int, ptrs []pointer) (b []byte)
+//@   requires 0 <= start && start <= len(ptrs) && nonnegPtrs(ptrs)
+//@   ensures  len(b) == (len(ptrs)-start)*26
+//@   ensures  forall i int :: start <= i && i < len(ptrs) ==> encodedAt(b, (i-start)*26, ptrs[i])
+//@   modifies nothing
+//@   loop 0 invariant start <= i && i <= len(ptrs) && len(b) == (len(ptrs)-start)*26
+//@   loop 0 invariant forall j int :: start <= j && j < i ==> encodedAt(b, (j-start)*26, ptrs[j])
+
+//@ func (f *pointerCodec) decode(b []byte) (ptrs []pointer)
+//@   ensures  len(ptrs) == len(b)/26
+//@   ensures  forall i int :: 0 <= i && i < len(ptrs) ==> encodedAt(b, i*26, ptrs[i]) && ptrs[i].Start >= 0 == (ptrs[i].Start >= 0)
+//@   modifies nothing
+//@   loop 0 invariant len(pointers) == len(b)/26
+//@   loop 0 invariant forall j int :: 0 <= j && j < __ri(0) ==> encodedAt(b, j*26, pointers[j])
